@@ -102,7 +102,9 @@ func withRandomDistribution(
 		}
 
 		var currentRate int
-		if remainingSteps == 1 || remainingRate == 0 {
+		if remainingSteps == 1 || remainingRate <= 0 {
+			// nothing to spread: a rate function may return a negative value (e.g. a staged
+			// profile queried before its start time), which the random source cannot take
 			currentRate = remainingRate
 		} else {
 			currentRate = randFn(remainingRate)
